@@ -19,13 +19,22 @@
      Fft         np.fft.fft divided by sqrt(power scale)      (OFDM.demodulate)
      Unmap       OFDM._prepare_decoded_signal                 (OFDM.demodulate returns here)
      Equalize    OfdmOneTapEqualizer.equalize_data with the impulse response the channel reports
-     Construct / SetParameters   HISTORY of one live OFDM object: OFDM(c) followed by up to HistMax - 1 calls
-                 set_parameters(c), accepted (valid c) or rejected with ValueError (invalid c: the object
-                 must stay exactly as it was).  After every call the object is USED: a full chain
-                 (StartLive) runs with the parameters the object holds and must satisfy every law for the
-                 configuration the history DEMANDS (`want`).  Ghost state of the as-is object: `obj`
-                 (parameters actually stored) and `memo` (which used-counts have had their sub-carrier
-                 numbers computed, and in which branch).
+     Construct / SetParameters / UseObj   HISTORY of one live OFDM object: OFDM(c), then calls
+                 set_parameters(c) - accepted (valid c) or rejected with ValueError (invalid c: the object
+                 must stay exactly as it was) - and USES <<"use", L, k>>: modulate(x) with a fresh data
+                 vector of length L followed by the rest of the chain.  Every configuration call is followed
+                 by 1..UseMax uses (different lengths: full, partial, same symbol count) before the next
+                 one; at most HistMax configuration calls.  From every state that ends with a use a full
+                 chain (StartLive) runs with the parameters the object holds and must satisfy every law for
+                 the configuration the history DEMANDS (`want`).  Ghost state of the as-is object: `obj`
+                 (parameters actually stored), `memo` (which used-counts have had their sub-carrier numbers
+                 computed, and in which branch), `prev` (layout and content of the IFFT input of the last
+                 modulate call).
+     FRAME LAWS (notes/CALL_DISCIPLINE.md): ArgumentsUnchanged (data after modulate; the received array - values
+                 AND scale `rxe` - after demodulate), EarlierResultsUnchanged (the emitted signal after the
+                 receiver ran), RejectedChangesNothing (= ObjectCoherent after a rejected call), RepeatableCall
+                 (every step is a FUNCTION of its arguments and `want`: holds by construction of the machine).
+                 Every emitted step lists the frame laws the replay must enforce on that call (`req`).
      MapCase     (star) the index map alone, for fft sizes up to 64 and every even u
      ParamCase   (star) OFDM.set_parameters: which <<N, cp, u>> are accepted
 
@@ -58,7 +67,10 @@
      DcNotSkipped, MapOffByOne, CpFromHead, ScaleNotInverted, SymbolsFloor, MemoryExceedsCp,
      MemoNumbersByUsedOnly (sub-carrier numbers cached per object keyed by the used count only: stale when
      the all-carriers branch and the centred branch meet the same count at different fft sizes),
-     RejectedSetHalfUpdates (set_parameters stores fft/cp before it validates the used count)
+     RejectedSetHalfUpdates (set_parameters stores fft/cp before it validates the used count),
+     PadKeepsOldData (the zero-padded IFFT input is kept between modulate calls and re-zeroed only when its
+     layout <<symbols, fft, used>> changes), DemodScalesArgument (demodulate removes the scale in place on
+     the caller's array)
                             plausible regressions / a dropped hypothesis; each is refuted by TLC, which
                             shows that the laws are not vacuous.                                      *)
 EXTENDS Integers, Sequences, FiniteSets, TLC, Emit, Cyc2
@@ -67,6 +79,7 @@ CONSTANTS Configs,   \* set of <<N, cp, u>> for which pipeline cases are generat
           MapFfts,   \* set of fft sizes whose index map is checked alone (for every even u <= N)
           ParamFfts, \* set of fft sizes for which parameter validation is checked (cp -1..N+1, u 0..N+2)
           LenMode,   \* "isi" | "two" | "three" | "all" : data lengths {u+1} | {u-1, 2u+1} | + 2u | 1..2u+1
+                     \* "pair" | "uses" : {2u, u+1} | {u-1, u+1, 2u}  (same symbol count, full and partial)
           PatMode,   \* "dense" | "basis"       : + all unit patterns at the longest length
           NDense,    \* number of pseudo-random dense data patterns per length
           LayMode,   \* "none" | "one" | "three" | "basis" | "all3" : tap layouts per configuration
@@ -74,7 +87,8 @@ CONSTANTS Configs,   \* set of <<N, cp, u>> for which pipeline cases are generat
           HistFirst, \* set of valid <<N, cp, u>> a live object is constructed with (partitions the histories)
           HistValid, \* set of valid <<N, cp, u>> a live object is re-configured to
           HistBad,   \* set of invalid <<N, cp, u>> passed to set_parameters (must be rejected, object unchanged)
-          HistMax,   \* number of calls in a history (constructor included)
+          HistMax,   \* number of configuration calls in a history (constructor included)
+          UseMax,    \* number of consecutive uses (modulate ... chains) after a configuration call
           Seed,      \* seeds the in-spec LCG
           Dev        \* [flag |-> BOOLEAN]
 
@@ -82,15 +96,17 @@ ASSUME CySelfTest(8)
 
 VARIABLES pc, cfg, ns, data, chan, sc, padded, grid, gridi, body, tx, txi, rxfull, rx, win, wini,
           freq, dem, demi, eq,
-          hist, want, obj, memo          \* the live object: calls so far, demanded / stored parameters, numbers cache
-live == <<hist, want, obj, memo>>
+          hist, want, obj, memo, prev,   \* the live object: calls so far, demanded / stored parameters, caches
+          rxe                            \* exponent of sqrt(ps) carried by the CALLER's received array
+live == <<hist, want, obj, memo, prev>>
 vars == <<pc, cfg, ns, data, chan, sc, padded, grid, gridi, body, tx, txi, rxfull, rx, win, wini,
-          freq, dem, demi, eq, hist, want, obj, memo>>
+          freq, dem, demi, eq, hist, want, obj, memo, prev, rxe>>
 
 GZ == <<0, 0>>
 Exact(N) == N \in {2, 4, 8, 16}
 NoChan == [taps |-> <<>>, block |-> FALSE]
 NoObj  == [N |-> 0, cp |-> 0, u |-> 0]
+NoPrev == [ns |-> 0, N |-> 0, u |-> 0, pad |-> <<>>]
 NoCfg  == [N |-> 0, cp |-> 0, u |-> 0, L |-> 0, pat |-> <<"none", 0, 0>>]
 N0 == cfg.N
 CP == cfg.cp
@@ -149,7 +165,9 @@ Rnd(k, i)   == LcgIter(LcgStart(Seed, k), i)
 
 Lengths(u) == IF LenMode = "all" THEN 1..(2 * u + 1)
               ELSE IF LenMode = "three" THEN {u - 1, 2 * u, 2 * u + 1}
-              ELSE IF LenMode = "isi" THEN {u + 1} ELSE {u - 1, 2 * u + 1}
+              ELSE IF LenMode = "isi" THEN {u + 1}
+              ELSE IF LenMode = "pair" THEN {2 * u, u + 1}
+              ELSE IF LenMode = "uses" THEN {u - 1, u + 1, 2 * u} ELSE {u - 1, 2 * u + 1}
 Patterns(u, L) == {<<"dense", s, 0>> : s \in 0..(NDense - 1)}
                   \cup (IF PatMode = "basis" /\ L = 2 * u + 1
                           THEN {<<"unit", j, v>> : j \in 1..L, v \in 1..2} ELSE {})
@@ -206,32 +224,33 @@ Init == /\ pc = "idle" /\ cfg = NoCfg /\ ns = 0 /\ data = <<>> /\ chan = NoChan
         /\ padded = <<>> /\ grid = <<>> /\ gridi = <<>> /\ body = <<>> /\ tx = <<>> /\ txi = <<>>
         /\ rxfull = <<>> /\ rx = <<>> /\ win = <<>> /\ wini = <<>> /\ freq = <<>> /\ dem = <<>>
         /\ demi = <<>> /\ eq = <<>>
-        /\ hist = <<>> /\ want = NoObj /\ obj = NoObj /\ memo = {}
+        /\ hist = <<>> /\ want = NoObj /\ obj = NoObj /\ memo = {} /\ prev = NoPrev /\ rxe = 0
 
 Choose(c, L, pat) ==
     /\ pc = "idle" /\ pc' = "input"
     /\ cfg' = [N |-> c[1], cp |-> c[2], u |-> c[3], L |-> L, pat |-> pat]
     /\ data' = DataOf(pat, L, KeyOf(c, L))
-    /\ UNCHANGED live
+    /\ UNCHANGED live /\ UNCHANGED rxe
     /\ UNCHANGED <<ns, chan, sc, padded, grid, gridi, body, tx, txi, rxfull, rx, win, wini, freq, dem, demi, eq>>
 
 MapCase(N, u) ==
     /\ pc = "idle" /\ pc' = "mapcase"
     /\ cfg' = [NoCfg EXCEPT !.N = N, !.u = u]
-    /\ UNCHANGED live
+    /\ UNCHANGED live /\ UNCHANGED rxe
     /\ UNCHANGED <<ns, data, chan, sc, padded, grid, gridi, body, tx, txi, rxfull, rx, win, wini, freq, dem, demi, eq>>
 
 ParamCase(N, cp, u) ==
     /\ pc = "idle" /\ pc' = "param"
     /\ cfg' = [NoCfg EXCEPT !.N = N, !.cp = cp, !.u = u]
-    /\ UNCHANGED live
+    /\ UNCHANGED live /\ UNCHANGED rxe
     /\ UNCHANGED <<ns, data, chan, sc, padded, grid, gridi, body, tx, txi, rxfull, rx, win, wini, freq, dem, demi, eq>>
 
 Pad ==
     /\ pc = "input" /\ pc' = "pad"
     /\ ns' = IF Dev.SymbolsFloor THEN (IF cfg.L < U THEN 1 ELSE cfg.L \div U) ELSE NSym(cfg.L, U)
-    /\ padded' = [j \in 1..(ns' * U) |-> IF j <= cfg.L THEN data[j] ELSE GZ]
-    /\ UNCHANGED live
+    /\ padded' = IF hist # <<>> THEN prev.pad        \* live object: the IFFT input as the use left it (UseObj)
+                  ELSE [j \in 1..(ns' * U) |-> IF j <= cfg.L THEN data[j] ELSE GZ]
+    /\ UNCHANGED live /\ UNCHANGED rxe
     /\ UNCHANGED <<cfg, data, chan, sc, grid, gridi, body, tx, txi, rxfull, rx, win, wini, freq, dem, demi, eq>>
 
 Map ==
@@ -239,14 +258,14 @@ Map ==
     /\ LET inv == InvIdx(UsedIdxLive(N0, U), N0)
        IN  /\ gridi' = [s \in 1..ns |-> [k1 \in 1..N0 |-> IF inv[k1] = 0 THEN 0 ELSE (s - 1) * U + inv[k1]]]
            /\ grid'  = [s \in 1..ns |-> [k1 \in 1..N0 |-> IF inv[k1] = 0 THEN GZ ELSE padded[(s - 1) * U + inv[k1]]]]
-    /\ UNCHANGED live
+    /\ UNCHANGED live /\ UNCHANGED rxe
     /\ UNCHANGED <<cfg, ns, data, chan, sc, padded, body, tx, txi, rxfull, rx, win, wini, freq, dem, demi, eq>>
 
 Ifft ==
     /\ pc = "map" /\ pc' = "ifft"
     /\ body' = IF Exact(N0) THEN [s \in 1..ns |-> CyIdftNG(grid[s], MM)] ELSE <<>>
     /\ sc' = [e |-> 1, div |-> N0]
-    /\ UNCHANGED live
+    /\ UNCHANGED live /\ UNCHANGED rxe
     /\ UNCHANGED <<cfg, ns, data, chan, padded, grid, gridi, tx, txi, rxfull, rx, win, wini, freq, dem, demi, eq>>
 
 \* body sample carried at offset o (0-based) of a block of N + cp emitted samples
@@ -256,12 +275,12 @@ AddCP ==
     /\ txi' = [p1 \in 1..(ns * BlkLen) |-> <<(p1 - 1) \div BlkLen, TLabel((p1 - 1) % BlkLen)>>]
     /\ tx'  = IF Exact(N0) THEN [p1 \in 1..(ns * BlkLen) |-> body[((p1 - 1) \div BlkLen) + 1][TLabel((p1 - 1) % BlkLen) + 1]]
               ELSE <<>>
-    /\ UNCHANGED live
+    /\ UNCHANGED live /\ UNCHANGED rxe
     /\ UNCHANGED <<cfg, ns, data, chan, sc, padded, grid, gridi, body, rxfull, rx, win, wini, freq, dem, demi, eq>>
 
 Loop ==
     /\ pc = "cp" /\ pc' = "rx"
-    /\ chan' = NoChan /\ rx' = tx
+    /\ chan' = NoChan /\ rx' = tx /\ rxe' = sc.e
     /\ UNCHANGED live
     /\ UNCHANGED <<cfg, ns, data, sc, padded, grid, gridi, body, tx, txi, rxfull, win, wini, freq, dem, demi, eq>>
 
@@ -282,12 +301,13 @@ Channel(ch) ==
                                     IN  IF src < 0 \/ src >= n THEN CyZero(MM)
                                         ELSE CyMulG(TapAt(ch, q, src), tx[src + 1])], MM)]
                    ELSE <<>>
-    /\ UNCHANGED live
+    /\ UNCHANGED live /\ UNCHANGED rxe
     /\ UNCHANGED <<cfg, ns, data, sc, padded, grid, gridi, body, tx, txi, rx, win, wini, freq, dem, demi, eq>>
 
 Crop ==
     /\ pc = "chan" /\ pc' = "rx"
     /\ rx' = IF Exact(N0) THEN SubSeq(rxfull, 1, Len(tx)) ELSE <<>>
+    /\ rxe' = sc.e
     /\ UNCHANGED live
     /\ UNCHANGED <<cfg, ns, data, chan, sc, padded, grid, gridi, body, tx, txi, rxfull, win, wini, freq, dem, demi, eq>>
 
@@ -295,13 +315,14 @@ RemoveCP ==
     /\ pc = "rx" /\ pc' = "nocp"
     /\ wini' = [s \in 1..ns |-> [w1 \in 1..N0 |-> txi[(s - 1) * BlkLen + CP + w1]]]
     /\ win'  = IF Exact(N0) THEN [s \in 1..ns |-> [w1 \in 1..N0 |-> rx[(s - 1) * BlkLen + CP + w1]]] ELSE <<>>
-    /\ UNCHANGED live
+    /\ UNCHANGED live /\ UNCHANGED rxe
     /\ UNCHANGED <<cfg, ns, data, chan, sc, padded, grid, gridi, body, tx, txi, rxfull, rx, freq, dem, demi, eq>>
 
 Fft ==
     /\ pc = "nocp" /\ pc' = "fft"
     /\ freq' = IF Exact(N0) THEN [s \in 1..ns |-> CyDft(win[s], MM)] ELSE <<>>
     /\ sc' = [e |-> IF Dev.ScaleNotInverted THEN sc.e + 1 ELSE sc.e - 1, div |-> sc.div]
+    /\ rxe' = IF Dev.DemodScalesArgument THEN rxe - 1 ELSE rxe       \* the caller's array is an input only
     /\ UNCHANGED live
     /\ UNCHANGED <<cfg, ns, data, chan, padded, grid, gridi, body, tx, txi, rxfull, rx, win, wini, dem, demi, eq>>
 
@@ -311,7 +332,7 @@ Unmap ==
        IN  /\ demi' = [j \in 1..(ns * U) |-> <<(j - 1) \div U, idx[((j - 1) % U) + 1]>>]
            /\ dem'  = IF Exact(N0) THEN [j \in 1..(ns * U) |-> freq[((j - 1) \div U) + 1][idx[((j - 1) % U) + 1] + 1]]
                       ELSE <<>>
-    /\ UNCHANGED live
+    /\ UNCHANGED live /\ UNCHANGED rxe
     /\ UNCHANGED <<cfg, ns, data, chan, sc, padded, grid, gridi, body, tx, txi, rxfull, rx, win, wini, freq, eq>>
 
 \* the equalised value of element j is the exact fraction num/den (den = div * H_s[bin]); H_s is the
@@ -324,7 +345,7 @@ Equalize ==
                THEN LET H == IF Dev.FreqResponseTruncates THEN FreqRespTrunc(chan.taps, N0) ELSE FreqResp(chan.taps, N0)
                     IN  [j \in 1..Len(dem) |-> [num |-> dem[j], den |-> EqDen(H, j)]]
                ELSE <<>>
-    /\ UNCHANGED live
+    /\ UNCHANGED live /\ UNCHANGED rxe
     /\ UNCHANGED <<cfg, ns, data, chan, sc, padded, grid, gridi, body, tx, txi, rxfull, rx, win, wini, freq, dem, demi>>
 
 \* ---- history of one live object (pc stays "idle"; the chains branch off every such state) ----
@@ -332,30 +353,51 @@ AsRec(c) == [N |-> c[1], cp |-> c[2], u |-> c[3]]
 Pipeline == <<cfg, ns, data, chan, sc, padded, grid, gridi, body, tx, txi, rxfull, rx, win, wini, freq, dem, demi, eq>>
 \* the object has been used in its current configuration (a chain ran): its numbers are cached
 Used(o, m) == IF \E e \in m : e[1] = o.u THEN m ELSE m \cup {<<o.u, o.u = o.N>>}
+IsUse(e) == e[1] = "use"
+RECURSIVE CfgCalls(_)
+CfgCalls(h) == IF h = <<>> THEN 0 ELSE (IF IsUse(h[Len(h)]) THEN 0 ELSE 1) + CfgCalls(SubSeq(h, 1, Len(h) - 1))
+RECURSIVE TrailingUses(_)
+TrailingUses(h) == IF h = <<>> \/ ~IsUse(h[Len(h)]) THEN 0 ELSE 1 + TrailingUses(SubSeq(h, 1, Len(h) - 1))
+LastIsUse == hist # <<>> /\ IsUse(hist[Len(hist)])
 Construct(c) ==
     /\ pc = "idle" /\ hist = <<>>
-    /\ hist' = <<c>> /\ want' = AsRec(c) /\ obj' = AsRec(c) /\ memo' = {}
-    /\ UNCHANGED pc /\ UNCHANGED Pipeline
+    /\ hist' = << <<"cfg", c[1], c[2], c[3]>> >> /\ want' = AsRec(c) /\ obj' = AsRec(c) /\ memo' = {} /\ prev' = NoPrev
+    /\ UNCHANGED pc /\ UNCHANGED Pipeline /\ UNCHANGED rxe
 SetParameters(c) ==
-    /\ pc = "idle" /\ hist # <<>> /\ Len(hist) < HistMax
-    /\ hist' = Append(hist, c)
+    /\ pc = "idle" /\ LastIsUse /\ CfgCalls(hist) < HistMax
+    /\ hist' = Append(hist, <<"cfg", c[1], c[2], c[3]>>)
     /\ memo' = Used(obj, memo)
     /\ IF Valid(c[1], c[2], c[3])
          THEN want' = AsRec(c) /\ obj' = AsRec(c)
          ELSE /\ want' = want                                     \* raises ValueError: nothing may change
               /\ obj' = IF Dev.RejectedSetHalfUpdates /\ c[2] \in 0..c[1]
                           THEN [obj EXCEPT !.N = c[1], !.cp = c[2]] ELSE obj
-    /\ UNCHANGED pc /\ UNCHANGED Pipeline
+    /\ UNCHANGED pc /\ UNCHANGED Pipeline /\ UNCHANGED <<prev, rxe>>
+\* modulate(x), x the dense pattern number k = position of the call in the history (so consecutive uses carry
+\* different data) of length L.  The IFFT input the as-is object builds: the data, then zeros - or, with the
+\* buffer kept between calls of the same layout, whatever the previous call left behind the data.
+UseData(L, k) == DataOf(<<"dense", k, 0>>, L, KeyOf(<<obj.N, obj.cp, obj.u>>, L))
+UseObj(L) ==
+    /\ pc = "idle" /\ hist # <<>> /\ obj = want /\ TrailingUses(hist) < UseMax
+    /\ LET k   == Len(hist)
+           d   == UseData(L, k)
+           nsx == NSym(L, obj.u)
+           stale == Dev.PadKeepsOldData /\ prev.ns = nsx /\ prev.N = obj.N /\ prev.u = obj.u
+       IN  /\ hist' = Append(hist, <<"use", L, k, 0>>)
+           /\ prev' = [ns |-> nsx, N |-> obj.N, u |-> obj.u,
+                       pad |-> [j \in 1..(nsx * obj.u) |-> IF j <= L THEN d[j] ELSE IF stale THEN prev.pad[j] ELSE GZ]]
+    /\ UNCHANGED pc /\ UNCHANGED Pipeline /\ UNCHANGED <<want, obj, memo, rxe>>
 NewObject   == \E c \in HistFirst : Construct(c)
 Reconfigure == \E c \in HistValid \cup HistBad : SetParameters(c)
-StartLive   == pc = "idle" /\ hist # <<>> /\ obj = want
-               /\ \E L \in Lengths(obj.u) : \E pat \in Patterns(obj.u, L) : Choose(<<obj.N, obj.cp, obj.u>>, L, pat)
+UseLive     == pc = "idle" /\ hist # <<>> /\ \E L \in Lengths(obj.u) : UseObj(L)
+StartLive   == pc = "idle" /\ LastIsUse /\ obj = want
+               /\ Choose(<<obj.N, obj.cp, obj.u>>, hist[Len(hist)][2], <<"dense", hist[Len(hist)][3], 0>>)
 
 Start    == pc = "idle" /\ hist = <<>> /\ \E c \in Configs : \E L \in Lengths(c[3]) : \E pat \in Patterns(c[3], L) : Choose(c, L, pat)
 MapStar  == pc = "idle" /\ hist = <<>> /\ \E N \in MapFfts : \E h \in 1..(N \div 2) : MapCase(N, 2 * h)
 ParamStar == pc = "idle" /\ hist = <<>> /\ \E N \in ParamFfts : \E cp \in -1..(N + 1) : \E u \in 0..(N + 2) : ParamCase(N, cp, u)
 Transmit == pc = "cp" /\ \E ch \in Channels(<<cfg.N, cfg.cp, cfg.u>>, KeyOf(<<cfg.N, cfg.cp, cfg.u>>, 0)) : Channel(ch)
-Next == NewObject \/ Reconfigure \/ StartLive \/ Start \/ MapStar \/ ParamStar \/ Pad \/ Map \/ Ifft \/ AddCP \/ Loop \/ Transmit
+Next == NewObject \/ Reconfigure \/ UseLive \/ StartLive \/ Start \/ MapStar \/ ParamStar \/ Pad \/ Map \/ Ifft \/ AddCP \/ Loop \/ Transmit
         \/ Crop \/ RemoveCP \/ Fft \/ Unmap \/ Equalize
 
 (* ============================================= the laws ========================================= *)
@@ -367,10 +409,24 @@ CG(g) == CyFromG(MM, g)
 IndexMap == /\ pc = "mapcase" => MapLaws(N0, U, UsedIdxAsIs(N0, U))
             /\ pc = "map"     => MapLaws(N0, U, UsedIdxLive(N0, U)) /\ UsedIdxLive(N0, U) = UsedIdx(N0, U)
 
+\* ---- frame laws ----
+\* arguments are inputs only: the data after the modulator ran, the received array (values and scale) after
+\* the demodulator ran
+IntendedData == DataOf(cfg.pat, cfg.L, KeyOf(<<cfg.N, cfg.cp, cfg.u>>, cfg.L))
+ArgumentsUnchanged ==
+    /\ pc = "cp" => data = IntendedData
+    /\ pc \in {"fft", "dem", "eq"} => rxe = 1
+    /\ pc = "dem" /\ Exact(N0) => rx = IF chan = NoChan THEN tx ELSE SubSeq(rxfull, 1, Len(tx))
+\* results stay results: the emitted signal is still prefix + body of every symbol after the receiver ran
+EarlierResultsUnchanged ==
+    pc = "dem" /\ Exact(N0) =>
+        \A p1 \in 1..Len(tx) : tx[p1] = body[txi[p1][1] + 1][txi[p1][2] + 1]
+
 \* the live object holds exactly the parameters its history demands: the last ACCEPTED call
 ObjectCoherent == hist # <<>> => /\ obj = want
                                  /\ Valid(want.N, want.cp, want.u)
                                  /\ pc # "idle" => <<cfg.N, cfg.cp, cfg.u>> = <<want.N, want.cp, want.u>>
+RejectedChangesNothing == ObjectCoherent
 
 \* every valid configuration has a well-formed index map and a positive power scale
 ParamLaw == pc = "param" /\ Valid(N0, CP, U) => /\ MapLaws(N0, U, UsedIdx(N0, U))
@@ -467,11 +523,20 @@ StepOut ==
                                        THEN LET H == FreqRespTrunc(chan.taps, N0)
                                             IN  [j \in 1..Len(dem) |-> [num |-> dem[j], den |-> EqDen(H, j)]]
                                        ELSE <<>>]
-      [] pc = "idle"    -> [call |-> hist[Len(hist)], accepted |-> Len(hist) = 1 \/ Valid(hist[Len(hist)][1], hist[Len(hist)][2], hist[Len(hist)][3]),
+      [] pc = "idle"    -> [call |-> hist[Len(hist)],
+                            accepted |-> LastIsUse \/ Valid(hist[Len(hist)][2], hist[Len(hist)][3], hist[Len(hist)][4]),
                             want |-> <<want.N, want.cp, want.u>>]
       [] OTHER          -> [none |-> 0]
+\* the frame laws the replay must enforce on the public call that ends with this step
+StepReq ==
+    CASE pc = "cp"   -> {"ArgumentsUnchanged", "RepeatableCall", "EarlierResultsUnchanged"}      \* modulate
+      [] pc = "chan" -> {"ArgumentsUnchanged", "EarlierResultsUnchanged"}                        \* corrupt_data
+      [] pc = "dem"  -> {"ArgumentsUnchanged", "RepeatableCall", "EarlierResultsUnchanged"}      \* demodulate
+      [] pc = "eq"   -> {"ArgumentsUnchanged", "RepeatableCall", "EarlierResultsUnchanged"}      \* equalize_data
+      [] pc = "idle" -> IF LastIsUse THEN {} ELSE {"RejectedChangesNothing"}                     \* set_parameters
+      [] OTHER       -> {}
 Emit == (pc # "idle" \/ hist # <<>>) =>
         EmitEdge([step |-> IF pc = "idle" THEN "call" ELSE pc, hist |-> hist, id |-> <<cfg.N, cfg.cp, cfg.u, cfg.L, cfg.pat>>, ch |-> chan,
                   sc |-> sc, ps |-> PowerScale(cfg.N, cfg.cp, cfg.u), exact |-> Exact(cfg.N),
-                  out |-> StepOut])
+                  req |-> StepReq, out |-> StepOut])
 =============================================================================
